@@ -66,6 +66,10 @@ func c04Generate(c *mon.Ctx) {
 			pv = gen.Fresh(r)
 		}
 
+		if r.Intn(5) == 0 {
+			return &c04Case{E: mon.MkNatElemCase(pv, r.Intn(8))}
+		}
+
 		return &c04Case{E: mon.MkElemCase(pv, gen.DrawRepr(r, pv.P.IsInf()))}
 	})
 }
